@@ -1,7 +1,8 @@
 (** C14 — property theorems only.  They are about the route table GENERATED from the current front_end.py. *)
-From Coq Require Import List Bool String.
-From HailV Require Import Routes.Model Routes.Lemmas.
-From HailG Require C14.Gen.
+From Coq Require Import List Bool String ZArith.
+From HailV Require Import Routes.Model Routes.Lemmas Routes.ListModel Routes.ListLemmas.
+From HailG Require C14.Gen C14.Lists.
+Import ListNotations.
 
 (** The literal property: whenever the code lets a request through, the path-derived policy lets it through —
     for every registered route, caller kind, ownership and billing-project membership.
@@ -31,3 +32,72 @@ Theorem C14_unauthenticated_only_public : forall r c x,
   is_public r = true.
 Proof. exact unauthenticated_only_public. Qed.
 Print Assumptions C14_unauthenticated_only_public.
+
+(** ---- list endpoints: the scope is one conjunct of a WHERE clause assembled as text (Routes/ListModel.v) ----
+    The builders C14.Lists.* are GENERATED from query_v1.py / query_v2.py / front_end.py.  [holds env w]: the emitted text [w]
+    read with SQL precedence (OR < AND < NOT) under the truth assignment [env] of its atoms.  Atom numbers are fixed by the
+    translator: 0 `jobs.batch_id = %s`, 1 `batch_updates.committed`, 2 `jobs.job_group_id = %s`, 3 `(jobs.batch_id,
+    jobs.job_group_id) IN (self-and-ancestors rows of the URL's batch and group)`, 10 `billing_project_users.user = %s`,
+    11 `billing_project_users.billing_project = batches.billing_project`, 20 `job_groups.batch_id = %s`,
+    21 `job_group_self_and_ancestors.ancestor_id = %s`, 22 `job_group_self_and_ancestors.level = 1`. *)
+
+(** The general fact: a joined clause whose conjuncts each read as one operand is true only if every conjunct is. *)
+Theorem C14_where_scoped : forall env cs, Forall (fun c => tightb c = true) cs ->
+  holds env (join_and cs) = true -> forall c, In c cs -> tval env c = true.
+Proof. exact where_scoped. Qed.
+Print Assumptions C14_where_scoped.
+
+(** GET .../batches/{batch_id}/jobs and .../job-groups/{id}/jobs, query language v1: for EVERY list of search terms
+    (branch of the term chain, number of states of a state keyword, negation), every paging / recursion flag, and every
+    text [ds] with the same top-level operands and keywords as the emitted term conditions (atoms and bracket contents
+    arbitrary), a row satisfies the WHERE clause only if it is a committed job of the URL's batch in the URL's job group. *)
+Theorem C14_list_jobs_v1_scoped : forall recursive has_last ts cs ds env,
+  v1_conjs C14.Lists.jobs_v1_cond C14.Lists.jobs_v1_neg ts = Some cs ->
+  Forall2 (fun c d => same_shape c d = true) cs ds ->
+  holds env (join_and (C14.Lists.jobs_v1_init recursive has_last ++ ds)) = true -> jobs_scope env recursive = true.
+Proof. exact jobs_v1_scoped. Qed.
+Print Assumptions C14_list_jobs_v1_scoped.
+
+(** the same, query language v2 (and the UI batch page): for ANY list of conditions produced by the Query classes *)
+Theorem C14_list_jobs_v2_scoped : forall recursive has_last conds env,
+  holds env (v2_where (C14.Lists.jobs_v2_init recursive has_last) C14.Lists.jobs_v2_wrap conds) = true ->
+  jobs_scope env recursive = true.
+Proof. exact jobs_v2_scoped. Qed.
+Print Assumptions C14_list_jobs_v2_scoped.
+
+(** GET /api/v1alpha/batches: only rows joined with a billing_project_users row of the caller for the batch's project *)
+Theorem C14_list_batches_v1_scoped : forall has_last ts cs ds env,
+  v1_conjs C14.Lists.batches_v1_cond C14.Lists.batches_v1_neg ts = Some cs ->
+  Forall2 (fun c d => same_shape c d = true) cs ds ->
+  holds env (join_and (C14.Lists.batches_v1_init has_last ++ ds)) = true -> env 10%Z && env 11%Z = true.
+Proof. exact batches_v1_scoped. Qed.
+Print Assumptions C14_list_batches_v1_scoped.
+
+(** GET /api/v2alpha/batches and the UI batches page: only rows whose billing_project_users row is the caller's (that this row
+    belongs to the batch's project is the INNER JOIN condition of the statement, checked by execution only) *)
+Theorem C14_list_batches_v2_scoped : forall has_last conds env,
+  holds env (v2_where (C14.Lists.batches_v2_init has_last) C14.Lists.batches_v2_wrap conds) = true -> env 10%Z = true.
+Proof. exact batches_v2_scoped. Qed.
+Print Assumptions C14_list_batches_v2_scoped.
+
+Theorem C14_list_job_groups_scoped : forall has_last env,
+  holds env (join_and (C14.Lists.groups_v1_init has_last)) = true -> env 20%Z && env 21%Z && env 22%Z = true.
+Proof. exact groups_v1_scoped. Qed.
+Print Assumptions C14_list_job_groups_scoped.
+
+Theorem C14_list_completed_batches_scoped : forall has_last env,
+  holds env (join_and (C14.Lists.completed_init has_last)) = true -> env 10%Z && env 11%Z = true.
+Proof. exact completed_scoped. Qed.
+Print Assumptions C14_list_completed_batches_scoped.
+
+Theorem C14_list_billing_jobs_scoped : forall has_last env,
+  holds env (join_and (C14.Lists.billing_jobs_init has_last)) = true -> env 0%Z = true.
+Proof. exact billing_jobs_scoped. Qed.
+Print Assumptions C14_list_billing_jobs_scoped.
+
+(** the bracket hypothesis is necessary: an unbracketed two-state OR-join after the scope conjunct is satisfied by rows
+    outside the scope *)
+Theorem C14_unbracketed_or_leaks : exists env,
+  holds env (join_and [[IGroup [IAtom 0%Z; IAnd; IAtom 1%Z]]; or_join [IGroup [IAtom 104%Z]] 2]) = true /\ env 0%Z = false.
+Proof. exact unbracketed_or_leaks. Qed.
+Print Assumptions C14_unbracketed_or_leaks.
